@@ -1,37 +1,13 @@
-"""C05 — fusing is an exact, invertible re-indexing (partial: the layout contract).
+"""C05 — fusing is an exact, invertible re-indexing described by the fused index.
 
-R05.1  optional sub-index information is only dereferenced under a guard
-R05.2  one layout, three consumers (insert, concat, unfuse) - no consumer-local re-ordering
-R05.3  canonical (sorted) sub-sector order, sub-sectors accumulated in perm order
-R05.4  fused direction / signed charge / position
+L1-L5  block-level layout contract of fuse / unfuse by abstract evaluation (rules/sem_layout.py)
 """
 
 from __future__ import annotations
 
-import ast
-
-from engine.loader import AnalysisError, src, walk_all, walk_own
-
 PID = "C05"
-EXPLANATION_OLD = (
-    "Structural analysis of the fuse / unfuse layout contract over the ASTs. (1) BlockIndex.subinfo is optional (None for "
-    "indices that were never fused, and for single-axis groups, which the fuse plan passes through untouched): every "
-    "`<index>.subinfo.<attr>` dereference in the package must be dominated by a not-None test of the same access path, or by "
-    "the singlet-group guard, which the checker first validates against the plan generator (old index iff `g in "
-    "group_singlets`, else a new BlockIndex with SubIndexInfo); documented-precondition sites are a frozen table. An unguarded "
-    "dereference is the crash of the concat strategy on single-axis groups with missing sub-blocks. (2) The sub-index table "
-    "`extents[charge]` is the layout contract between the two fuse strategies and unfuse: each consumer traverses it in native "
-    "dict order with offsets from accum_for_split, and none re-orders it. (3) The table is filled inside a loop over the sorted "
-    "sub-sectors, and sub-sectors are accumulated in the plan's permutation order, so two operands produce the same layout. "
-    "(4) The fused direction is that of the group's first axis, sub-charges are signed relative to it, and groups are inserted "
-    "at the minimum fused axis. Where elements land and bit-exact round trips are not decided."
-)
 EXPLANATION = (
-    "Two analyses. (A) R05.1, a guard (null-dereference) analysis over the ASTs: BlockIndex.subinfo is optional (None for indices "
-    "that were never fused and for single-axis groups, which the fuse plan passes through untouched); every `<index>.subinfo.<attr>` "
-    "dereference in the package must be dominated by a not-None test of the same access path or by the singlet-group guard (which the "
-    "checker first validates against the plan generator); documented-precondition sites are a frozen table. (B) L1-L4, abstract "
-    "evaluation of the layout contract: the checker's evaluator interprets fuse (both strategies), unfuse and unfuse_all from the "
+    "Abstract evaluation of the layout contract (L1-L5): the checker's evaluator interprets fuse (both strategies), unfuse and unfuse_all from the "
     "current source on a bounded family of arrays (symmetries Z2, U1, Z2Z2, plus U1U1 and Z4 in the thorough tier; ranks 2-4; "
     "several direction patterns; identity and non-identity charge; full and sparse sector sets; abelian and fermionic with pending "
     "signs; 3-7 groupings per rank including single-axis groups, permuted and non-adjacent axes) whose block contents are shaped "
@@ -47,160 +23,22 @@ EXPLANATION = (
 ASSUMPTIONS = ["python dicts preserve insertion order", "backend transpose/reshape/concatenate/zeros behave as numpy's (row-major)",
                "the evaluator implements the Python semantics of the sub-language the library uses (anything else fails closed)"]
 
-DEREF_EXEMPT = {
-    "AbelianArray.unfuse": "documented precondition: the axis to unfuse must carry sub-index information",
-    "FermionicArray.unfuse": "documented precondition: the axis to unfuse must carry sub-index information",
-    "BlockIndex.matches": "debug-only comparison; raises instead of returning False when exactly one side is fused",
-}
-
-
-def _parents(root):
-    par = {}
-    for n in ast.walk(root):
-        for c in ast.iter_child_nodes(n):
-            par[id(c)] = n
-    return par
-
-
-def _contains(container, node):
-    if isinstance(container, list):
-        return any(_contains(c, node) for c in container)
-    return any(x is node for x in ast.walk(container))
-
-
-def _test_implies_present(test, path, polarity=True):
-    """(test is polarity) implies `path` is not None"""
-    s = src(test).replace("(", "").replace(")", "")
-    if polarity:
-        if s in (path, f"{path} is not None"):
-            return True
-        if isinstance(test, ast.BoolOp) and isinstance(test.op, ast.And):
-            return any(_test_implies_present(v, path, True) for v in test.values)
-        return False
-    return s in (f"{path} is None", f"not {path}")
-
-
-def _singlet_guard(test, polarity, gvar):
-    s = src(test).replace("(", "").replace(")", "")
-    if polarity:
-        return s == f"{gvar} not in group_singlets"
-    return s == f"{gvar} in group_singlets"
-
-
-def _group_var(path):
-    """new_indices[position + g].subinfo -> 'g'"""
-    import re
-
-    m = re.match(r"new_indices\[position \+ (\w+)\]\.subinfo$", path)
-    return m.group(1) if m else None
-
-
-def check_deref(prog, ctx):
-    rid = "R05.1"
-    # validate the singlet guard against the plan generator
-    calc = prog.func("symmray.abelian_core:calc_fuse_block_info")
-    gens = [n for n in ast.walk(calc.node) if isinstance(n, ast.IfExp) and src(n.test) == "g in group_singlets"
-            and isinstance(n.orelse, ast.Call) and src(n.orelse.func) == "BlockIndex"]
-    ok = len(gens) == 1
-    if ok:
-        kws = {k.arg: k.value for k in gens[0].orelse.keywords}
-        ok = "subinfo" in kws and isinstance(kws["subinfo"], ast.Call) and src(kws["subinfo"].func) == "SubIndexInfo" \
-            and src(gens[0].body).startswith("old_indices[")
-    ctx.check(ok, rid, calc, gens[0] if gens else calc.node, "plan generator",
-              "the fuse plan builds, for group g, the untouched old index iff g in group_singlets, else a BlockIndex with "
-              "SubIndexInfo (this validates `g in group_singlets` as a guard for .subinfo)")
-    singlet_guard_valid = ok
-    n_sites = 0
-    for f in sorted(prog.funcs.values(), key=lambda f: f.fq):
-        if f.parent is not None:
-            continue
-        par = _parents(f.node)
-        # local aliases  v = <expr>.subinfo
-        aliases = {}
-        for a in ast.walk(f.node):
-            if isinstance(a, ast.Assign) and len(a.targets) == 1 and isinstance(a.targets[0], ast.Name) \
-                    and isinstance(a.value, ast.Attribute) and a.value.attr in ("subinfo", "_subinfo"):
-                aliases[a.targets[0].id] = src(a.value)
-        for node in ast.walk(f.node):
-            if not isinstance(node, ast.Attribute):
-                continue
-            base = node.value
-            if isinstance(base, ast.Attribute) and base.attr in ("subinfo", "_subinfo"):
-                path = src(base)
-            elif isinstance(base, ast.Name) and base.id in aliases and isinstance(node.ctx, ast.Load):
-                path = base.id
-            else:
-                continue
-            n_sites += 1
-            q = f.qualname
-            # enclosing nested function qualname for the exemption lookup uses the top-level function
-            if q in DEREF_EXEMPT:
-                ctx.ok(rid, f"{f.file}:{q}", f"{src(node)}: exempt - {DEREF_EXEMPT[q]}")
-                continue
-            guarded = False
-            gvar = _group_var(path)
-            cur = node
-            while id(cur) in par and not guarded:
-                p = par[id(cur)]
-                if isinstance(p, ast.IfExp):
-                    if _contains(p.body, node) and (_test_implies_present(p.test, path, True)
-                                                    or (gvar and singlet_guard_valid and _singlet_guard(p.test, True, gvar))):
-                        guarded = True
-                    if _contains(p.orelse, node) and (_test_implies_present(p.test, path, False)
-                                                      or (gvar and singlet_guard_valid and _singlet_guard(p.test, False, gvar))):
-                        guarded = True
-                elif isinstance(p, ast.If):
-                    if _contains(p.body, node) and (_test_implies_present(p.test, path, True)
-                                                    or (gvar and singlet_guard_valid and _singlet_guard(p.test, True, gvar))):
-                        guarded = True
-                    if _contains(p.orelse, node) and (_test_implies_present(p.test, path, False)
-                                                      or (gvar and singlet_guard_valid and _singlet_guard(p.test, False, gvar))):
-                        guarded = True
-                elif isinstance(p, ast.comprehension):
-                    if any(_test_implies_present(c, path, True) for c in p.ifs):
-                        guarded = True
-                # early-return guard: a preceding sibling `if g in group_singlets: ... return`
-                body = getattr(p, "body", None)
-                if isinstance(body, list) and gvar and singlet_guard_valid:
-                    for st in body:
-                        if _contains(st, node):
-                            break
-                        if isinstance(st, ast.If) and _singlet_guard(st.test, False, gvar) and _always_returns(st.body):
-                            guarded = True
-                cur = p
-            ctx.check(guarded, rid, f, node, src(node)[:100],
-                      f"dereference `{src(node)[:80]}` is dominated by a not-None test of `{path}` or by the singlet-group guard")
-    ctx.minimum(rid, 9, "confirmed dereference sites")
-
-
-def _always_returns(stmts):
-    if not stmts:
-        return False
-    last = stmts[-1]
-    if isinstance(last, (ast.Return, ast.Raise)):
-        return True
-    if isinstance(last, ast.If):
-        return _always_returns(last.body) and _always_returns(last.orelse)
-    return False
-
 
 def run(prog, ctx):
     from rules.sem_layout import check_layout
 
-    ctx.rule("R05.1", "every `.subinfo.<attr>` dereference is dominated by a not-None test of the same path or by the (validated) "
-             "singlet-group guard; precondition sites are a frozen table")
     ctx.rule("L1", "fused array: axis order (groups where the smallest fused axis was, in the given order), direction of each fused index = "
                    "that of the group's first axis, sub-indices = the original indices in group order, fused sectors = signed combinations")
     ctx.rule("L2", "every original block lands exactly once at the window the fused index's OWN sub-index table assigns to its sub-sector, "
-                   "transposed to the plan's axis order; strategies insert and concat give identical results; the result does not depend on "
-                   "the order in which the sectors are stored")
+                   "transposed to the plan's axis order; strategies insert and concat give identical results (also for single-axis groups "
+                   "with missing sub-blocks); the result does not depend on the order in which the sectors are stored")
     ctx.rule("L3", "unfuse_all(fuse(x)) and unfusing one axis at a time (either order) give x in the plan's axis order: every block is the "
                    "original block (token identity), any extra block is zero, the indices are the original ones")
     ctx.rule("L4", "fermionic arrays: the same windows, and after the round trip the effective sign (stored sign x pending sign) of every "
                    "block equals that of the fermionic transpose to the plan's axis order")
-    for q, why in DEREF_EXEMPT.items():
-        ctx.fact(f"{q}: {why}")
-    check_deref(prog, ctx)
+    ctx.rule("L5", "groups containing already-fused axes: fusing an array that carries a fused leg and unfusing twice restores x; two such "
+                   "arrays that differ only in the inner structure of the fused leg, fused in one session (shared plan cache), do not "
+                   "receive each other's layout")
     n = check_layout(prog, ctx)
     ctx.extra_coverage = {"fuse_cases_evaluated": n}
     ctx.minimum("L2", 1, "layout")
